@@ -195,4 +195,128 @@ theorem W.apply_spec (bs : Nat) (hbs : 0 < bs) (kb : Nat → UInt8) (s : W) (dat
         rw [this, htl] at *
         omega
 
-#print axioms W.apply_spec
+
+/-! ## Seeking, position reporting, exhaustion check (cipher 0.5.0-pre.8 stream/wrapper.rs, stream.rs SeekNum)
+    `cmax` = maximum of the core's counter type (2^w − 1); the core provides blocks 0 … cmax − 1. -/
+
+/-- SeekNum::from_block_byte in a type with maximum `tmax` -/
+def fromBlockByte (tmax block byte bs : Nat) : Option Nat :=
+  if block > tmax then none                          -- block.try_into()
+  else if block * bs > tmax then none                -- checked_mul
+  else if block * bs < bs - byte then none           -- checked_sub(rem)
+  else some (block * bs - (bs - byte))
+
+def W.currentPos (bs tmax : Nat) (s : W) : Option Nat := fromBlockByte tmax s.blk s.pos bs
+
+theorem W.currentPos_exact (bs tmax : Nat) (s : W) (v : Nat) (h : s.currentPos bs tmax = some v) :
+    v = s.q bs := by
+  unfold W.currentPos fromBlockByte at h
+  split at h; · simp at h
+  split at h; · simp at h
+  split at h; · simp at h
+  simp only [Option.some.injEq] at h
+  simp [W.q, ← h]
+
+theorem W.currentPos_overflow (bs tmax : Nat) (kb) (s : W) (hI : WInv bs kb s) (hbs : 0 < bs)
+    (h : tmax < s.q bs) : s.currentPos bs tmax = none := by
+  obtain ⟨h1, h2, h3, _⟩ := hI
+  unfold W.currentPos fromBlockByte
+  simp only [W.q] at h
+  split; · rfl
+  split; · rfl
+  split; · rfl
+  omega
+
+/-- try_seek: into_block_byte, set_block_pos, conditional write_keystream_block (counter wraps mod cmax+1) -/
+def W.seek (bs cmax : Nat) (kb : Nat → UInt8) (s : W) (p : Nat) : Option W :=
+  let block := p / bs
+  let byte := p % bs
+  if block > cmax then none
+  else if byte ≠ 0 then
+    some { blk := (block + 1) % (cmax + 1), pos := byte, buf := (ksBlock bs kb block).set 0 (UInt8.ofNat byte) }
+  else some { blk := block, pos := bs, buf := s.buf }
+
+theorem W.seek_spec (bs cmax : Nat) (hbs : 0 < bs) (kb) (s : W) (p : Nat) (hp : p < cmax * bs) :
+    ∃ s', s.seek bs cmax kb p = some s' ∧ WInv bs kb s' ∧ s'.q bs = p := by
+  have hdm := Nat.div_add_mod p bs
+  have hml := Nat.mod_lt p hbs
+  have hblk : p / bs < cmax := by
+    apply Nat.div_lt_of_lt_mul; rw [Nat.mul_comm]; exact hp
+  unfold W.seek
+  simp only
+  rw [if_neg (by omega)]
+  split
+  · rename_i hb
+    have hmod : (p / bs + 1) % (cmax + 1) = p / bs + 1 := Nat.mod_eq_of_lt (by omega)
+    refine ⟨_, rfl, ⟨by simp only; omega, by simp only; omega,
+      fun _ => by show 1 ≤ (p / bs + 1) % (cmax + 1); rw [hmod]; exact Nat.le_add_left 1 _, ?_⟩, ?_⟩
+    · intro _
+      simp only [hmod]
+      rw [drop_set_zero _ _ _ (by omega)]
+      simp only [ksBlock]
+      rw [ksBytes_drop _ _ _ _ (Nat.le_of_lt hml)]
+      congr 1
+      rw [Nat.add_mul, Nat.one_mul]
+      have := Nat.mul_comm (p / bs) bs
+      omega
+    · simp only [W.q, hmod]
+      rw [Nat.add_mul, Nat.one_mul]
+      have := Nat.mul_comm (p / bs) bs
+      omega
+  · rename_i hb
+    have hb0 : p % bs = 0 := by omega
+    refine ⟨_, rfl, ⟨by simp only; omega, by simp, by simp, by simp⟩, ?_⟩
+    simp only [W.q, Nat.sub_self, Nat.sub_zero]
+    have := Nat.mul_comm (p / bs) bs
+    omega
+
+/-- F2, stated generally: a seek into the never-to-be-produced last block succeeds and wraps the counter -/
+theorem W.seek_past_end_wraps (bs cmax : Nat) (kb) (s : W) (byte : Nat) (h0 : 0 < byte) (hlt : byte < bs) :
+    ∃ s', s.seek bs cmax kb (cmax * bs + byte) = some s' ∧ s'.blk = 0 := by
+  have hdiv : (cmax * bs + byte) / bs = cmax := by
+    rw [Nat.mul_comm, Nat.mul_add_div (by omega), Nat.div_eq_of_lt hlt]; simp
+  have hmod : (cmax * bs + byte) % bs = byte := by
+    rw [Nat.mul_comm, Nat.mul_add_mod, Nat.mod_eq_of_lt hlt]
+  unfold W.seek
+  simp only [hdiv, hmod]
+  rw [if_neg (by omega), if_pos (by omega)]
+  exact ⟨_, rfl, by simp⟩
+
+/-- check_remaining with the CTR cores' `remaining = cmax − blk` (when it fits usize) -/
+def W.checkRemaining (bs cmax : Nat) (s : W) (n : Nat) : Bool :=
+  let remBlocks := cmax - s.blk
+  let bufRem := bs - s.pos
+  if n ≤ bufRem then true
+  else decide ((n - bufRem + bs - 1) / bs ≤ remBlocks)          -- div_ceil
+
+theorem W.checkRemaining_iff (bs cmax : Nat) (hbs : 0 < bs) (kb) (s : W) (n : Nat)
+    (hI : WInv bs kb s) (hblk : s.blk ≤ cmax) :
+    s.checkRemaining bs cmax n = true ↔ s.q bs + n ≤ cmax * bs := by
+  obtain ⟨h1, h2, h3, _⟩ := hI
+  have hge : s.pos < bs → s.blk * bs ≥ bs := fun h => by
+    calc s.blk * bs ≥ 1 * bs := Nat.mul_le_mul_right bs (h3 h)
+      _ = bs := by simp
+  have hmono : s.blk * bs ≤ cmax * bs := Nat.mul_le_mul_right bs hblk
+  have hsplit : cmax * bs = s.blk * bs + (cmax - s.blk) * bs := by
+    rw [← Nat.add_mul]; congr 1; omega
+  unfold W.checkRemaining
+  simp only [W.q]
+  split
+  · rename_i hle
+    simp only [true_iff]
+    rcases Nat.lt_or_ge s.pos bs with hlt | hge'
+    · have := hge hlt; omega
+    · omega
+  · rename_i hgt
+    simp only [decide_eq_true_eq]
+    rw [Nat.div_le_iff_le_mul_add_pred hbs]
+    have hc := Nat.mul_comm bs (cmax - s.blk)
+    rcases Nat.lt_or_ge s.pos bs with hlt | hge'
+    · have := hge hlt; omega
+    · omega
+
+#print axioms W.currentPos_exact
+#print axioms W.currentPos_overflow
+#print axioms W.seek_spec
+#print axioms W.seek_past_end_wraps
+#print axioms W.checkRemaining_iff
